@@ -28,8 +28,11 @@ def reg_expr(rng, regs, depth=2):
             return q
         if r < 0.6:
             return "%s * %s" % (coeff(), q)
-        if r < 0.75:
+        if r < 0.68:
             return "%s ** %d" % (q, rng.randint(2, 3))
+        if r < 0.75:
+            # a negative integer exponent, literal or a declared int variable (a rational expression)
+            return rng.choice(["%s ** -%d" % (q, rng.randint(1, 2)), "%s ** nneg" % q, "(%s + 1.5) ** -2" % q])
         if r < 0.9:
             return "%s / %s" % (q, coeff())
         return "(%s + %s)" % (q, coeff())
@@ -59,14 +62,14 @@ def cases(rng, quick):
         if rng.random() < 0.2:
             # unusual but valid spellings of register numbers: leading zeros (q01 is the register of mode 1)
             regs = [("q0" + r[1:] if rng.random() < 0.6 else "q00" + r[1:]) for r in regs]
-        lines = [HDR + "float x = 0.75\nint n = 3"]
+        lines = [HDR + "float x = 0.75\nint n = 3\nint nneg = -2"]
         ctx = rng.random()
         if ctx < 0.25:
             # a template: other statements (before or after) use free parameters
             lines.append("Dgate({%s}%s) | 0" % (rng.choice(["alpha", "a", "q", "x1"]), rng.choice(["", ", 2 * {b}", ", phi={b} + 1"])))
         elif ctx < 0.4:
             # a tdm program with p-arrays (their names live in the same table as the parameters)
-            lines = ["name r\nversion 1.0\ntype tdm (temporal_modes=2)\nfloat x = 0.75\nint n = 3\nfloat array p0 =\n    0.1, 0.2\nfloat array p1 =\n    0.3, 0.4",
+            lines = ["name r\nversion 1.0\ntype tdm (temporal_modes=2)\nfloat x = 0.75\nint n = 3\nint nneg = -2\nfloat array p0 =\n    0.1, 0.2\nfloat array p1 =\n    0.3, 0.4",
                      "Sgate(p0, 0.0) | 1"]
         k = rng.randint(1, 3)
         for _ in range(k):
